@@ -337,7 +337,7 @@ func (s *JavaFullListener) EnterMethodDeclaration(ctx *parser.MethodDeclarationC
 
 	// check, before your refactor
 	position := core_domain.CodePosition{
-		StartLine:         ctx.GetStart().GetLine(),
+		StartLine:         ctx.Identifier().GetStart().GetLine(), // the line of the name, as the columns
 		StartLinePosition: ctx.Identifier().GetStart().GetColumn(), // different
 		StopLine:          ctx.GetStop().GetLine(),
 		StopLinePosition:  ctx.Identifier().GetStart().GetColumn() + len(name),
